@@ -1046,9 +1046,34 @@ func (bp *boundsProver) proveAtCallers(fn *ssa.Function, g boundsGoal, depth int
 	if node == nil {
 		return false, 0, ""
 	}
+	type inEdge struct {
+		Site   ssa.CallInstruction
+		Caller *ssa.Function
+	}
+	var edges []inEdge
+	if bp.p.useViews {
+		// in the view program the static call sites are those of the units; interface dispatch keeps the
+		// call graph's edges
+		for _, u := range bp.p.UUnits() {
+			for _, c := range allCalls(u) {
+				if sameFn(c.Common().StaticCallee(), fn) {
+					edges = append(edges, inEdge{c, u})
+				}
+			}
+		}
+		for _, e := range node.In {
+			if e.Site != nil && e.Site.Common().IsInvoke() {
+				edges = append(edges, inEdge{e.Site, e.Caller.Func})
+			}
+		}
+	} else {
+		for _, e := range node.In {
+			edges = append(edges, inEdge{e.Site, e.Caller.Func})
+		}
+	}
 	n := 0
-	for _, e := range node.In {
-		caller := e.Caller.Func
+	for _, e := range edges {
+		caller := e.Caller
 		if e.Site == nil || caller == nil || caller.Blocks == nil {
 			continue
 		}
